@@ -490,6 +490,14 @@ func (u *Unit) compileSpec(sf *SpecFn) *compiledSpec {
 	}
 	cs := &compiledSpec{name: sf.Name, busy: true}
 	u.specDone[sf.Name] = cs
+	defer func() {
+		// a spec function that cannot be compiled in this unit's mode leaves no trace: a later use
+		// must fail the same way instead of referring to a definition that was never emitted
+		if r := recover(); r != nil {
+			delete(u.specDone, sf.Name)
+			panic(r)
+		}
+	}()
 	for _, p := range sf.Params {
 		t, err := u.eng.ResolveType(sf.PkgPath, p.Type)
 		if err != nil {
